@@ -38,7 +38,7 @@ type c47BPCase struct {
 	Mode   string `json:"mode"`   // half | full
 	MB     int    `json:"mb"`     // size of the flooder's stream (reader-closes: upper bound, the flood stops when it stalls)
 	Chunk  int    `json:"chunk"`  // write size of the flooder
-	RcvBuf int    `json:"rcvbuf"` // SO_RCVBUF of the side that does not read
+	RcvBuf int    `json:"rcvbuf"` // SO_RCVBUF of the side that does not read (0 = system default: writer-closes cases, whose reader side drains later)
 }
 
 func (c *c47BPCase) shape() string {
@@ -66,6 +66,11 @@ func c47BPGen(g *vkit.Rand, id, i int, quick bool) *c47BPCase {
 	}
 	c.Chunk = []int{4096, 16384, 65536, 1 << 20}[g.Intn(4)]
 	c.RcvBuf = []int{4096, 16384, 65536}[g.Intn(3)]
+	if c.Closer == c.Flood {
+		// the reader side will have to drain the whole stream: a receive window of a few KB (which the
+		// kernel keeps clamped even when SO_RCVBUF is raised again) would make that take minutes
+		c.RcvBuf = 0
+	}
 	return c
 }
 
@@ -110,7 +115,7 @@ func (e *c47Env) runBP(c *c47BPCase) {
 	}
 	defer conn.Close()
 	conn.SetDeadline(time.Now().Add(150 * time.Second)) // watchdog only
-	if c.Flood == "backend" {
+	if c.Flood == "backend" && c.RcvBuf > 0 {
 		if tcp := rawTCP(conn); tcp != nil {
 			tcp.SetReadBuffer(c.RcvBuf)
 		}
@@ -135,7 +140,7 @@ func (e *c47Env) runBP(c *c47BPCase) {
 	}
 	defer t.conn.Close()
 	t.conn.SetDeadline(time.Now().Add(150 * time.Second)) // watchdog only
-	if c.Flood == "client" {
+	if c.Flood == "client" && c.RcvBuf > 0 {
 		if tcp, ok := t.conn.(*net.TCPConn); ok {
 			tcp.SetReadBuffer(c.RcvBuf)
 		}
@@ -303,10 +308,6 @@ func (e *c47Env) runBP(c *c47BPCase) {
 		r.Count("bp_writer_closes_flood_stalled_before_drain", 1)
 	} else {
 		r.Count("bp_writer_closes_flood_absorbed_by_buffers", 1)
-	}
-	// the small receive buffer has done its job (a window of a few KB makes the drain extremely slow)
-	if tcp := rawTCP(rc); tcp != nil {
-		tcp.SetReadBuffer(4 << 20)
 	}
 	rc.SetReadDeadline(time.Now().Add(120 * time.Second))
 	got, bad, rerr := verifyStream(rr, c.ID, dir, total)
